@@ -716,6 +716,11 @@ func (p *CaseForm) typecheckForm(gammaNameTypesCtx NamesTypesCtx, providerShadow
 				return TypeErrorf("branch labelled '%s' does not match the branches of type '%s'", curBranchForm.StringShort(), providerBranchCaseType.String())
 			}
 
+			// curBranchForm.payload_c (the new name of the provider) cannot exist in gammaNameTypesCtx
+			if nameTypeExists(gammaNameTypesCtx, curBranchForm.payload_c.Ident) {
+				return TypeErrorf("variable name '%s' is already defined. Use a unique name in the branch '%s'", curBranchForm.payload_c.String(), curBranchForm.StringShort())
+			}
+
 			// Set type
 			curBranchForm.payload_c.Type = expectedBranchType.SessionType
 
